@@ -265,7 +265,7 @@ def run_and_validate(chk, behaviours, label):
             f.write("\n".join(lines) + "\n")
     vlib.sh([b, script, trace], timeout=600)
     events = vlib.read_ndjson(trace)
-    res = vlib.validate("DhtTrace", trace, timeout=1200)
+    res = vlib.validate("DhtTrace", trace, timeout=1200 if chk.tier != "thorough" else 3000)
     nb = sum(1 for e in events if e["op"] == "reset")
     chk.add_traces(nb, len(events), res, label)
     dl = set()
@@ -332,19 +332,19 @@ def run(chk):
     hists = model_check(chk, thorough)[kind]
     hists = [h for h in hists if h]
     log("[gen] %d TLC state-cover sequences (%s model)" % (len(hists), kind))
-    cover = rng.sample(hists, min(len(hists), 600 if not thorough else 12000))
+    cover = rng.sample(hists, min(len(hists), 600 if not thorough else 6000))
     run_and_validate(chk, [hist_to_script(h, kind, rng) for h in cover], "tlc-state-cover")
     # the same paths with the real capacities brought down to the model's (fillers), so that the
     # model's overflow behaviours are overflow behaviours of the real constants 16 / 20
-    infl = rng.sample(hists, min(len(hists), (60 if kind == "prov" else 25) if not thorough else 1500))
+    infl = rng.sample(hists, min(len(hists), (60 if kind == "prov" else 25) if not thorough else (1000 if kind == "prov" else 250)))
     run_and_validate(chk, [hist_to_script(h, kind, rng, inflate=True) for h in infl], "tlc-state-cover-at-capacity")
     # transition cover: every kind of action appended to a sample of state-cover paths
     ext = []
-    for h in rng.sample(hists, min(len(hists), 40 if not thorough else 1200)):
+    for h in rng.sample(hists, min(len(hists), 40 if not thorough else 600)):
         for a in EXT[kind]:
             ext.append(hist_to_script(h, kind, rng, inflate=rng.random() < (0.15 if kind == "prov" else 0.05), extra=[a]))
     run_and_validate(chk, ext, "tlc-transition-cover")
-    n = 250 if not thorough else 6000
+    n = 250 if not thorough else 3000
     run_and_validate(chk, [random_behaviour(rng, chk.pid) for _ in range(n)], "random-256bit")
     chk.assumptions += ["virtual clock by link-time interposition of steady_clock::now",
                         "buckets_ is read through explicit template instantiation (no source hook); table_ through snapshot_locators()",
